@@ -1,0 +1,8 @@
+//go:build verif
+
+package sequence
+
+import "sync/atomic"
+
+// VerifCurrent returns the counter without advancing it (verification builds only).
+func VerifCurrent() uint64 { return atomic.LoadUint64(&seq) }
